@@ -11,9 +11,17 @@
 (*    the input."                                                          *)
 (*                                                                         *)
 (* record:                                                                 *)
-(*   outcome  "ok" | "yamlerror" | "exception" | "hang" | "died"           *)
+(*   outcome  "ok" | "yamlerror" | "exception" | "recursion" | "hang" |    *)
+(*            "died"                                                       *)
 (*            (hang = no result within the watchdog limit, twice;          *)
-(*             died = the worker process was killed by a signal, twice)    *)
+(*             died = the worker process was killed by a signal, twice;    *)
+(*             recursion = RecursionError)                                 *)
+(*   entry, backend, nest, reclimit   (outcome "recursion" only, else      *)
+(*            "-", "-", 0, 0)  the entry point ("scan" | "parse" |         *)
+(*            "compose_all"), the back-end ("py" | "c"), an upper bound of *)
+(*            the nesting depth of the input (the number of its [ { - ? :  *)
+(*            characters: every collection that contains a node is opened  *)
+(*            by one) and the interpreter's recursion limit                *)
 (*   lenc     length of the input in characters (-1: not decodable)        *)
 (*   lenb     length of the input in bytes (= lenc for str input)          *)
 (*   marks    << [i, l, c] >> marks carried by a marked YAML error         *)
@@ -27,6 +35,19 @@
 (* Pos is the one of Trace_Tokens / Trace_Events: lines are counted by     *)
 (* breaks up to the index, columns are characters since the last break     *)
 (* with U+FEFF as zero width.                                              *)
+(*                                                                         *)
+(*   "(Nesting deeper than the interpreter recursion limit is out of scope *)
+(*    for the pure-Python composer.)"                                      *)
+(* A RecursionError is a non-YAML exception like any other, except where   *)
+(* this sentence applies: raised by compose of the pure-Python back-end on *)
+(* an input that may be nested so deeply that the composer's recursion     *)
+(* (two frames per level: compose_node, compose_sequence_node /            *)
+(* compose_mapping_node) can reach the limit.  FramesPerLevel = 4 leaves a *)
+(* margin of a factor two for the frames below the call, so H is weaker,   *)
+(* never stronger, than the statement.  Scanner and parser are iterative:  *)
+(* a RecursionError from scan or parse, from the LibYAML back-end, or on   *)
+(* an input without that many collection indicators (a long run of tabs,   *)
+(* spaces, line breaks, digits ...) is a violation.                        *)
 (***************************************************************************)
 EXTENDS Integers, Sequences, FiniteSets, TLC, Json, IOUtils
 
@@ -41,8 +62,13 @@ Bound(t) == IF t.lenc > t.lenb THEN t.lenc ELSE t.lenb
 MarkOk(t, m) == IF t.exact THEN 0 <= m.i /\ m.i <= t.lenc /\ m.l = LineOf(t, m.i) /\ m.c = ColOf(t, m.i)
                 ELSE 0 <= m.i /\ m.i <= Bound(t) /\ 0 <= m.l /\ m.l <= Bound(t) /\ 0 <= m.c /\ m.c <= Bound(t)
 
+FramesPerLevel == 4
+NestingOutOfScope(t) == t.backend = "py" /\ t.entry = "compose_all" /\ FramesPerLevel * t.nest >= t.reclimit
+
 Judge(t) ==
   IF t.outcome = "hang" THEN [ok |-> FALSE, why |-> "hang"]
+  ELSE IF t.outcome = "recursion" THEN (IF NestingOutOfScope(t) THEN [ok |-> TRUE, why |-> "-"]
+                                        ELSE [ok |-> FALSE, why |-> "RecursionError below the nesting limit"])
   ELSE IF t.outcome = "died" THEN [ok |-> FALSE, why |-> "interpreter crash"]
   ELSE IF t.outcome = "exception" THEN [ok |-> FALSE, why |-> "non-YAML exception"]
   ELSE IF t.outcome \notin {"ok", "yamlerror"} THEN [ok |-> FALSE, why |-> "unknown outcome"]
